@@ -16,6 +16,7 @@ const (
 	gBlocked
 	gDone
 	gFrozen
+	gSleeping
 )
 
 type selCase struct {
@@ -42,6 +43,7 @@ type G struct {
 	resOk   bool
 	top     *frame
 	why     string
+	wakeAt  int64 // virtual ns, for gSleeping
 }
 
 type Chan struct {
@@ -81,9 +83,13 @@ func (e *Engine) gmain(g *G) {
 		// normal completion: pass the baton
 		p = protect(func() {
 			next := e.pick(g)
-			if next == nil {
-				e.deadlock()
-				e.endPath(e.outcome.Kind, e.outcome.Detail)
+			for next == nil {
+				e.idleWakeups++
+				if e.idleWakeups > 200 || !e.advanceClock(longSleep-1) {
+					e.deadlock()
+					e.endPath(e.outcome.Kind, e.outcome.Detail)
+				}
+				next = e.pick(g)
 			}
 			e.resume(next)
 		})
@@ -136,8 +142,41 @@ func (g *G) ready() bool {
 		return true
 	case gBlocked:
 		return g.poll != nil && g.poll()
+	case gSleeping:
+		return g.wakeAt <= E.vclock
 	}
 	return false
+}
+
+// advanceClock moves the virtual clock to the earliest sleeper whose wake-up time is <= limit.
+func (e *Engine) advanceClock(limit int64) bool {
+	best := int64(-1)
+	for _, g := range e.gs {
+		if g.state == gSleeping && g.wakeAt <= limit && (best < 0 || g.wakeAt < best) {
+			best = g.wakeAt
+		}
+	}
+	if best < 0 {
+		return false
+	}
+	if best > e.vclock {
+		e.vclock = best
+	}
+	return true
+}
+
+const longSleep = int64(1) << 62
+
+// sleep parks g for d virtual nanoseconds (d < 0: a symbolic/unknown duration, treated as very long).
+func (e *Engine) sleep(g *G, d int64) {
+	if d < 0 {
+		g.wakeAt = longSleep
+	} else {
+		g.wakeAt = e.vclock + d
+	}
+	g.state = gSleeping
+	g.why = "time.Sleep at " + e.where(g)
+	e.yield(g)
 }
 
 // pick chooses the next goroutine to run (other than from, unless from is the only one).
@@ -194,9 +233,19 @@ func (e *Engine) yield(g *G) {
 		g.poll = nil
 		return
 	}
-	if next == nil {
-		e.deadlock()
-		e.endPath(e.outcome.Kind, e.outcome.Detail)
+	for next == nil {
+		// nothing can run: let virtual time pass (bounded) before declaring a deadlock
+		e.idleWakeups++
+		if e.idleWakeups > 200 || !e.advanceClock(longSleep-1) {
+			e.deadlock()
+			e.endPath(e.outcome.Kind, e.outcome.Detail)
+		}
+		next = e.pick(g)
+		if next == g {
+			g.state = gRunning
+			g.poll = nil
+			return
+		}
 	}
 	e.resume(next)
 	e.park(g)
@@ -216,6 +265,7 @@ func (e *Engine) blockUntil(g *G, why string, cond func() bool) {
 
 // settle lets all other goroutines run until none can make progress.
 func (e *Engine) settle(g *G) {
+	horizon := e.vclock + 100*1000*1000 // sleeps ending within 100 virtual ms are waited for
 	for {
 		any := false
 		for _, o := range e.gs {
@@ -224,6 +274,9 @@ func (e *Engine) settle(g *G) {
 			}
 		}
 		if !any {
+			if e.advanceClock(horizon) {
+				continue
+			}
 			return
 		}
 		g.state = gRunnable
